@@ -15,12 +15,13 @@ from typing import Any
 from . import backends
 from .core import Ctx, InternalError, Part, main_wrapper, pmap
 from .explore import Chooser, explore
-from .linz import Scenario, SqlScenario
+from .linz import Scenario, SimfsScenario, SqlScenario
 from .sharness import S
 
 PID = "C03"
 
 SQL_CONFIGS = ["rdb-procs", "cached-procs", "rdb-shared"]
+SIMFS_CONFIGS = ["jfile-procs-sym", "jfile-procs-open"]
 
 THREAD_CONFIGS = {
     "mem": ["optuna.storages._in_memory"],
@@ -103,6 +104,22 @@ def scenarios(tier: str) -> list[tuple]:
             for p in [(("create_trial", "user_attr"), ("create_trial", "finish")), (("create_waiting", "claim"), ("claim", "get_waiting")),
                       (("claim",), ("claim",), ("claim",))]:
                 out.append((cfg, p, 1))
+    # Part C: processes with their own JournalStorage over one simulated journal file
+    for cfg in SIMFS_CONFIGS:
+        names = ["create_trial", "create_waiting", "claim", "finish", "user_attr", "set_param", "create_study", "delete_study",
+                 "get_all_trials", "get_waiting"]
+        if tier == "quick" and cfg.endswith("open"):
+            names = ["create_trial", "claim", "finish", "get_all_trials"]
+        for i, a in enumerate(names):
+            for b in names[i:]:
+                if a == b and a in NO_SELF_PAIR:
+                    continue
+                if a.startswith("get_") and b.startswith("get_"):
+                    continue
+                out.append((cfg, ((a,), (b,)), 2 if tier == "quick" else 3))
+        if tier == "thorough":
+            out.append((cfg, (("create_trial", "user_attr"), ("create_trial", "finish")), 2))
+            out.append((cfg, (("claim",), ("claim",), ("claim",)), 2))
     return out
 
 
@@ -114,7 +131,15 @@ def scenario_task(task: tuple) -> dict:
     cfg, names, bound = task
     backends.setup_determinism()
     part = Part()
-    if cfg in SQL_CONFIGS:
+    cache = False
+    if cfg in SIMFS_CONFIGS:
+        from . import thx as _thx
+
+        _thx.set_instrumented([])
+        sc = SimfsScenario(cfg, "std", build_programs(names))
+        engine = "procx-simfs"
+        cache = True
+    elif cfg in SQL_CONFIGS:
         from . import thx as _thx
 
         _thx.set_instrumented([])
@@ -153,7 +178,9 @@ def scenario_task(task: tuple) -> dict:
             key = f"{engine}|{cfg}|not-linearizable|{'+'.join('/'.join(p) for p in sorted(names))}"
             part.violation(key, rep)
 
-    st = explore(sc.execute, bound, on_exec)
+    st = explore(sc.execute, bound, on_exec, cache_states=cache, max_execs=60000)
+    if st["capped"]:
+        part.add("caps_hit")
     part.add("scenarios")
     part.add("states", len(outcomes))  # distinct observable outcomes
     part.add("traces_validated_against_impl", len(sc._seq_cache))
@@ -182,7 +209,7 @@ def run(tier: str, replay: str | None = None) -> int:
     ]
     backends.cleanup_root()
     return ctx.finish(
-        exhaustive=True,
+        exhaustive=not ctx.cov.get("caps_hit"),
         rule="all schedules up to the preemption bound of every unordered pair of the 15-op alphabet (2 threads x 1 op) plus curated 2x2 and 3x1 programs, per configuration; states = distinct observable outcomes",
         extra={"preemption_bound": {"quick": "pairs: mem 2, jlist/grpc(mem)/cached 1; 2x2 and 3x1 programs: 1", "thorough": "pairs: 3 (cached 2); 2x2/3x1: 2"}[tier]},
     )
